@@ -23,5 +23,5 @@ Init == i \in 1..Len(Recs)
 Next == FALSE /\ i' = i
 Judged == LET w == Verdict(Recs[i]) IN
           /\ (w = "ok" \/ PrintT(<<"REJECT", i, w>>))
-          /\ (Recs[i].built # "ok" \/ Unspecs(Recs[i]) = 0 \/ PrintT(<<"UNSPEC", Unspecs(Recs[i])>>))
+          /\ (Recs[i].built # "ok" \/ Unspecs(Recs[i]) = 0 \/ PrintT(<<"UNSPECN", Unspecs(Recs[i])>>))
 =============================================================================
